@@ -226,4 +226,26 @@ def pm (arg v : Bytes) : Bool :=
   let dict := pmDict arg
   if v.length < minPatternLen dict then false else acMatches dict v
 
+/-- bufio.Scanner lines: split on LF, one trailing CR dropped (a final line without LF counts) -/
+def scanLines (data : Bytes) : List Bytes :=
+  let ls := splitOn 0x0a data
+  let ls := if ls.getLast? == some [] then ls.dropLast else ls
+  ls.map fun l => if l.getLast? == some 0x0d then l.dropLast else l
+
+def isSpaceB (b : UInt8) : Bool := b == 0x20 || (9 ≤ b && b ≤ 13)
+def trimSpaceB (s : Bytes) : Bytes := ((s.dropWhile isSpaceB).reverse.dropWhile isSpaceB).reverse
+
+/-- pm_from_file.go:46-58: the phrases of a data file — trimmed lines, empty lines and `#` comments left out, lower-cased -/
+def pmFileDict (data : Bytes) : List Bytes :=
+  ((scanLines data).map trimSpaceB).filter (fun l => !l.isEmpty && l.head? != some 0x23) |>.map (·.map asciiLower)
+
+/-- @pmFromFile on the content of its file (ASCII) -/
+def pmFromFile (data v : Bytes) : Bool :=
+  let dict := pmFileDict data
+  if v.length < minPatternLen dict then false else acMatches dict v
+
+/-- @pmFromDataset on the phrases of its dataset -/
+def pmFromDataset (dict : List Bytes) (v : Bytes) : Bool :=
+  if v.length < minPatternLen dict then false else acMatches dict v
+
 end Coraza.Op
